@@ -179,7 +179,14 @@ impl Lowerer<'_> {
             TyRef::U8,
             Value::Discriminant(examinee.clone()),
         );
-        let default_branch = if !default_branches.is_empty() {
+        // The default chain is only reachable for variants without an arm
+        // of their own. When every variant has one, the `_` arms only take
+        // part in the chains of those variants. Emitting the default chain
+        // anyway is wrong when all `_` arms are guarded: its last guard
+        // would jump to a block that does not exist.
+        let default_branch = if !default_branches.is_empty()
+            && all_discriminants.len() < variants.len()
+        {
             Some(default_lbl)
         } else {
             None
@@ -212,7 +219,7 @@ impl Lowerer<'_> {
             );
         }
 
-        if !default_branches.is_empty() {
+        if default_branch.is_some() {
             self.match_case(
                 examinee,
                 examinee_ty_ref,
